@@ -228,6 +228,10 @@ func (f *Flow) runOne(fr *Frame, st0 string) []string {
 		terminated := false
 		for _, in := range b.Instrs {
 			f.Steps++
+			if f.Steps > 20_000_000 {
+				f.Err = fmt.Errorf("UNDECIDED: analysis budget exceeded in %s", f.P.FnKey(fn))
+				return nil
+			}
 			var next []string
 			switch in := in.(type) {
 			case *ssa.Defer:
@@ -240,10 +244,14 @@ func (f *Flow) runOne(fr *Frame, st0 string) []string {
 						}
 					}
 					nd := e.defers
-					if nd != "" {
-						nd += ","
+					// a defer statement inside a loop is recorded once (the analysis does not count
+					// how often the deferred call will run)
+					if !strings.Contains(","+nd+",", ","+deferID[in]+",") {
+						if nd != "" {
+							nd += ","
+						}
+						nd += deferID[in]
 					}
-					nd += deferID[in]
 					for _, o := range outs {
 						next = append(next, est{o, nd, e.facts}.enc())
 					}
